@@ -197,6 +197,17 @@ def emits (mode : HMode) (c : Option Rat) : Bool :=
   | .nonZero => c != some 0
   | _ => true
 
+/-- the value the following rules read for the left item: the computed one, except that under
+`rule_priority` a null result leaves what the item had (null if it had no datapoint). -/
+def newVal (imode : HInput) (c : Option Rat) (old : Option (Option Rat)) : Option Rat :=
+  match imode, c with
+  | .rulePriority, none => (match old with | some o => o | none => none)
+  | _, _ => c
+
+/-- the computed value: the signed sum where the `when` condition is TRUE, null otherwise. -/
+def compOf (mode : HMode) (w : Value) (src : St) (ρ : HRule) : Option Rat :=
+  if w == .bool true then rhs mode src ρ.right else none
+
 /-- one rule on one group: the state seen by the following rules, and the computed item if any.
 `src` is the state the right-hand side reads (`dataset` input mode: always the operand). -/
 def hStep (mode : HMode) (imode : HInput) (g : Row) (st0 : St) (ρ : HRule) (st : St) :
@@ -204,12 +215,8 @@ def hStep (mode : HMode) (imode : HInput) (g : Row) (st0 : St) (ρ : HRule) (st 
   let w ← condOf ρ g
   let src := if imode == .dataset then st0 else st
   if !modeFilterH mode src ρ then pure (st, none) else
-  let c : Option Rat := if w == .bool true then rhs mode src ρ.right else none
-  let v : Option Rat :=
-    match imode, c with
-    | .rulePriority, none => (match st ρ.left with | some old => old | none => none)
-    | _, _ => c
-  pure (st.set ρ.left v, if emits mode c then some (ρ.left, c) else none)
+  pure (st.set ρ.left (newVal imode (compOf mode w src ρ) (st ρ.left)),
+        if emits mode (compOf mode w src ρ) then some (ρ.left, compOf mode w src ρ) else none)
 
 def hRun (mode : HMode) (imode : HInput) (g : Row) (st0 : St) : List HRule → St → R (St × List (String × Option Rat))
   | [], st => .ok (st, [])
